@@ -45,16 +45,153 @@ Definition is_hello (m : message) : bool :=
   && opt_is (str_field m DBUS_HEADER_FIELD_MEMBER) S_Hello
   && opt_is_or_none (str_field m DBUS_HEADER_FIELD_INTERFACE) DBUS_INTERFACE_DBUS_str.
 
-Inductive mout :=
-| Seen (from : N) (raw : bytes)    (* bus_transaction_capture: the sender's message as sent *)
-| Hi (c : N)                       (* NameOwnerChanged ("" -> c's unique name) *)
-| Bye (c : N).                     (* NameOwnerChanged (c's unique name -> "") *)
+Definition msg_flags (m : message) : N := byte_at (m_header m) 2.
+Definition msg_serial (m : message) : N := u32_at (msg_le m) (m_header m) 8.
+Definition msg_reply_serial (m : message) : option N :=
+  match field_value DBUS_HEADER_FIELD_REPLY_SERIAL (m_fields m) with
+  | Some f => Some (u32_at (msg_le m) (f_val f) 0)
+  | None => None
+  end.
 
-Definition MON : N := 0.            (* recipient "every monitor" *)
+Definition S_RequestName : bytes := [82; 101; 113; 117; 101; 115; 116; 78; 97; 109; 101].
+Definition S_BecomeMonitor : bytes := [66; 101; 99; 111; 109; 101; 77; 111; 110; 105; 116; 111; 114].
+Definition S_Monitoring : bytes :=        (* org.freedesktop.DBus.Monitoring *)
+  DBUS_INTERFACE_DBUS_str ++ [46; 77; 111; 110; 105; 116; 111; 114; 105; 110; 103].
+Definition S_su : bytes := [115; 117].
+Definition S_asu : bytes := [97; 115; 117].
+Definition S_unique_prefix : bytes := [58; 49; 46].     (* ":1." *)
+
+Inductive mout :=
+| Seen (from : N) (raw : bytes)          (* bus_transaction_capture: the sender's message as sent *)
+| Hi (c : N)                             (* NameOwnerChanged ("" -> c's unique name) *)
+| Bye (c : N)                            (* NameOwnerChanged (c's unique name -> "") *)
+| Noc (name : bytes) (old new : N)       (* NameOwnerChanged of a well-known name; 0 = nobody *)
+| NoReply (to : N) (serial : N).         (* error NoReply sent to the caller of a pending call whose callee went away *)
+
+Definition MON : N := 0.            (* recipient "every monitor"; connection ids of the run start at 1 *)
+
+(* state of the core: what bus_connection_disconnected / free_connection_data have to clean up.
+   - uniq: the number in the unique name ":1.<n>" of every registered connection (next_major/minor counter of bus/driver.c);
+   - names: owner queues of well-known names (first = primary owner), acq: BusConnectionData.services_owned
+     (every queue entry, in the order it was made);
+   - pend: BusConnections.pending_replies as (caller, callee, serial);
+   - mons: BusConnections.monitors *)
+Record mstate := mkM {
+  m_next : N;
+  m_uniq : list (N * N);
+  m_names : list (bytes * list N);
+  m_acq : list (N * bytes);
+  m_pend : list (N * N * N);
+  m_mons : list N
+}.
+
+Definition mem (c : N) (l : list N) : bool := existsb (N.eqb c) l.
+Definition unique_name (n : N) : bytes := S_unique_prefix ++ dec_of_N n.
+
+(* bus_registry_lookup + primary owner; a unique name resolves to its registered, non-monitor connection *)
+Definition resolve (k : mstate) (d : bytes) : option N :=
+  match find (fun p => bytes_eqb d (unique_name (snd p))) (m_uniq k) with
+  | Some (c, _) => if mem c (m_mons k) then None else Some c
+  | None =>
+      match find (fun p => bytes_eqb d (fst p)) (m_names k) with
+      | Some (_, c :: _) => Some c
+      | _ => None
+      end
+  end.
+
+Definition canonical (m : message) : bool := opt_is (str_field m DBUS_HEADER_FIELD_PATH) DBUS_PATH_DBUS_str.
+
+(* RequestName (s name, u flags) at the canonical path *)
+Definition is_request_name (m : message) : bool :=
+  (msg_type m =? DBUS_MESSAGE_TYPE_METHOD_CALL) && canonical m
+  && opt_is (str_field m DBUS_HEADER_FIELD_MEMBER) S_RequestName
+  && opt_is_or_none (str_field m DBUS_HEADER_FIELD_INTERFACE) DBUS_INTERFACE_DBUS_str
+  && bytes_eqb (msg_signature m) S_su.
+Definition rn_name (m : message) : bytes := str_payload (msg_le m) (m_body m).
+Definition rn_flags (m : message) : N :=
+  u32_at (msg_le m) (m_body m) (N.to_nat (align_up (4 + u32_at (msg_le m) (m_body m) 0 + 1) 4)).
+
+(* BecomeMonitor ([], 0) at the canonical path (caller is privileged: same uid as the bus) *)
+Definition is_become_monitor (m : message) : bool :=
+  (msg_type m =? DBUS_MESSAGE_TYPE_METHOD_CALL) && canonical m
+  && opt_is (str_field m DBUS_HEADER_FIELD_MEMBER) S_BecomeMonitor
+  && opt_is_or_none (str_field m DBUS_HEADER_FIELD_INTERFACE) S_Monitoring
+  && bytes_eqb (msg_signature m) S_asu
+  && bytes_eqb (m_body m) [0; 0; 0; 0; 0; 0; 0; 0].
+
+(* bus_registry_acquire_service, restricted to flags 0 / DO_NOT_QUEUE on names nobody may replace
+   (ALLOW_REPLACEMENT / REPLACE_EXISTING are C04's subject and are not generated here) *)
+Fixpoint acquire (names : list (bytes * list N)) (name : bytes) (c : N) (dnq : bool) : list (bytes * list N) * bool * bool :=
+  (* (new table, c joined a queue, c became primary owner) *)
+  match names with
+  | [] => ([(name, [c])], true, true)
+  | (n, q) :: r =>
+      if bytes_eqb n name then
+        match q with
+        | [] => ((n, [c]) :: r, true, true)
+        | _ => if mem c q || dnq then ((n, q) :: r, false, false) else ((n, q ++ [c]) :: r, true, false)
+        end
+      else let '(r', j, o) := acquire r name c dnq in ((n, q) :: r', j, o)
+  end.
+
+(* bus_service_remove_owner for every entry of services_owned, last first *)
+Fixpoint release_names (names : list (bytes * list N)) (c : N) (owned_rev : list bytes) : list (bytes * list N) * list (N * mout) :=
+  match owned_rev with
+  | [] => (names, [])
+  | name :: r =>
+      let step :=
+        (fix go (l : list (bytes * list N)) : list (bytes * list N) * list (N * mout) :=
+           match l with
+           | [] => ([], [])
+           | (n, q) :: t =>
+               if bytes_eqb n name then
+                 match q with
+                 | h :: q' =>
+                     if h =? c then
+                       match q' with
+                       | [] => (t, [(MON, Noc n c 0)])                  (* the name disappears *)
+                       | h' :: _ => ((n, q') :: t, [(MON, Noc n c h')])  (* the next in the queue takes over *)
+                       end
+                     else ((n, filter (fun x => negb (x =? c)) q) :: t, [])   (* a waiting entry is dropped silently *)
+                 | [] => ((n, q) :: t, [])
+                 end
+               else let '(t', o) := go t in ((n, q) :: t', o)
+           end) in
+      let '(names1, o1) := step names in
+      let '(names2, o2) := release_names names1 c r in
+      (names2, o1 ++ o2)
+  end.
+
+Definition owned_rev (k : mstate) (c : N) : list bytes := rev (map snd (filter (fun p => fst p =? c) (m_acq k))).
+Definition forget_conn (k : mstate) (c : N) (names : list (bytes * list N)) (mons : list N) : mstate :=
+  mkM (m_next k) (filter (fun p => negb (fst p =? c)) (m_uniq k)) names (filter (fun p => negb (fst p =? c)) (m_acq k))
+      (m_pend k) mons.
+
+(* bus_connections_check_reply: the first entry (callee = sender, caller = recipient, serial) goes *)
+Fixpoint check_reply (l : list (N * N * N)) (callee caller serial : N) : list (N * N * N) :=
+  match l with
+  | [] => []
+  | (a, b, s) :: r => if (a =? caller) && (b =? callee) && (s =? serial) then r else (a, b, s) :: check_reply r callee caller serial
+  end.
+(* bus_connections_expect_reply: refused if the same triple is already there, else prepended *)
+Definition expect_reply (l : list (N * N * N)) (caller callee serial : N) : list (N * N * N) :=
+  if existsb (fun p => match p with (a, b, s) => (a =? caller) && (b =? callee) && (s =? serial) end) l then l
+  else (caller, callee, serial) :: l.
+Definition set_pend (k : mstate) (p : list (N * N * N)) : mstate := mkM (m_next k) (m_uniq k) (m_names k) (m_acq k) p (m_mons k).
+
+(* bus_connection_drop_pending_replies (run by free_connection_data after a disconnect, and by bus_connection_be_monitor):
+   entries whose CALLER is c are dropped (that includes calls c made to itself); the callers of the
+   remaining entries whose CALLEE is c get a NoReply error *)
+Definition drop_pending (l : list (N * N * N)) (c : N) : list (N * N * N) * list (N * mout) :=
+  let kept := filter (fun p => match p with (a, b, _) => negb (a =? c) && negb (b =? c) end) l in
+  let errs := flat_map (fun p => match p with (a, b, s) => if negb (a =? c) && (b =? c) then [(MON, NoReply a s)] else [] end) l in
+  (kept, errs).
 
 (* bus_dispatch *)
-Definition mini_dispatch (k : unit) (c : N) (active : bool) (m : message) : unit * list (N * mout) * verdict :=
+Definition mini_dispatch (k : mstate) (c : N) (active : bool) (m : message) : mstate * list (N * mout) * verdict :=
   let seen := (MON, Seen c (msg_raw m)) in
+  if mem c (m_mons k) then (k, [], VClose)       (* "Monitors aren't meant to send messages to us": closed, not captured *)
+  else
   match str_field m DBUS_HEADER_FIELD_DESTINATION with
   | None =>
       if msg_type m =? DBUS_MESSAGE_TYPE_SIGNAL
@@ -62,20 +199,49 @@ Definition mini_dispatch (k : unit) (c : N) (active : bool) (m : message) : unit
       else (k, [], VNone)                      (* DBUS_HANDLER_RESULT_NOT_YET_HANDLED: libdbus answers, no capture *)
   | Some d =>
       if bytes_eqb d DBUS_SERVICE_DBUS_str then
-        if active then (k, [seen], VNone)       (* the driver answers (a second Hello gets an error) *)
+        if active then
+          if is_request_name m then
+            let '(names, joined, owner) := acquire (m_names k) (rn_name m) c (negb (N.land (rn_flags m) DBUS_NAME_FLAG_DO_NOT_QUEUE =? 0)) in
+            (mkM (m_next k) (m_uniq k) names (if joined then m_acq k ++ [(c, rn_name m)] else m_acq k) (m_pend k) (m_mons k),
+             seen :: (if owner then [(MON, Noc (rn_name m) 0 c)] else []), VNone)
+          else if is_become_monitor m then
+            (* bus_connection_be_monitor: every name goes, first acquired first (the unique name is the first) *)
+            let '(names, o) := release_names (m_names k) c (rev (owned_rev k c)) in
+            (* "it isn't allowed to reply, and it is no longer relevant whether it receives replies" *)
+            let '(pend, errs) := drop_pending (m_pend k) c in
+            (set_pend (forget_conn k c names (c :: m_mons k)) pend, seen :: (MON, Bye c) :: o ++ errs, VNone)
+          else (k, [seen], VNone)               (* the driver answers (a second Hello gets an error) *)
         else if is_hello m then
           (* bus_context_check_security_policy lets it through; bus_driver_handle_message:
              Hello is found at any path, in_args "" must equal the signature *)
-          if bytes_eqb (msg_signature m) [] then (k, [seen; (MON, Hi c)], VComplete)
+          if bytes_eqb (msg_signature m) []
+          then (mkM (m_next k + 1) (m_uniq k ++ [(c, m_next k)]) (m_names k) (m_acq k) (m_pend k) (m_mons k), [seen; (MON, Hi c)], VComplete)
           else (k, [seen], VNone)               (* InvalidArgs *)
         else (k, [seen], VNone)                 (* AccessDenied: "other than Hello without being registered" *)
-      else if active then (k, [seen], VNone)    (* routed (or an error is returned): not modelled here *)
+      else if active then
+        (* routed: only the pending-reply bookkeeping of bus_context_check_security_policy is modelled
+           (allow-all policy): a REPLY_SERIAL consumes the matching entry, a method call that expects a reply adds one *)
+        match resolve k d with
+        | None => (k, [seen], VNone)            (* NameHasNoOwner / ServiceUnknown goes back to the sender *)
+        | Some r =>
+            let p1 := match msg_reply_serial m with
+                      | Some rs => check_reply (m_pend k) c r rs
+                      | None => m_pend k
+                      end in
+            let p2 := if (msg_type m =? DBUS_MESSAGE_TYPE_METHOD_CALL) && (N.land (msg_flags m) DBUS_HEADER_FLAG_NO_REPLY_EXPECTED =? 0)
+                      then expect_reply p1 c r (msg_serial m) else p1 in
+            (set_pend k p2, [seen], VNone)
+        end
       else (k, [seen], VClose)                  (* "clients must talk to bus driver first" *)
   end.
 
-(* bus_connection_disconnected *)
-Definition mini_disconnect (k : unit) (c : N) (active : bool) : unit * list (N * mout) :=
-  (k, if active then [(MON, Bye c)] else []).
+(* bus_connection_disconnected, then free_connection_data *)
+Definition mini_disconnect (k : mstate) (c : N) (active : bool) : mstate * list (N * mout) :=
+  let is_mon := mem c (m_mons k) in
+  let '(names, o) := if active && negb is_mon then release_names (m_names k) c (owned_rev k c) else (m_names k, []) in
+  let '(pend, errs) := drop_pending (m_pend k) c in
+  (set_pend (forget_conn k c names (filter (fun x => negb (x =? c)) (m_mons k))) pend,
+   o ++ (if active && negb is_mon then [(MON, Bye c)] else []) ++ errs).
 
 (* ---- handshake ---------------------------------------------------------------- *)
 Definition S_EXTERNAL : bytes := [69; 88; 84; 69; 82; 78; 65; 76].
@@ -103,10 +269,14 @@ Definition mini_auth_feed (uid : N) (a : auth) (d : bytes) : auth * bytes * aver
       end
   end.
 
-Definition mini_ops (uid : N) : ops auth unit mout :=
-  mkOps auth unit mout auth_init (mini_auth_feed uid) mini_dispatch mini_disconnect.
+Definition mini_ops (uid : N) : ops auth mstate mout :=
+  mkOps auth mstate mout auth_init (mini_auth_feed uid) mini_dispatch mini_disconnect.
 
-Definition mini_init : state auth unit := init tt.
+(* [base]: the number the bus will put into the next unique name (4 on a fresh daemon of the
+   correspondence run: the monitor, the pair and the observer come first) *)
+Definition mini_core0 (base : N) : mstate := mkM base [] [] [] [] [].
+Definition mini_init_at (base : N) : state auth mstate := init (mini_core0 base).
+Definition mini_init : state auth mstate := mini_init_at 4.
 
 (* what the OCaml driver calls: per-event outputs of a history *)
 Definition mini_run (uid : N) (cf : cfg) (h : list Bus.event) : list (list (out mout)) :=
